@@ -715,9 +715,13 @@ class VizierServicer(vizier_service_pb2_grpc.VizierServiceServicer):
         if (
             output_operation.status
             == vizier_oss_pb2.EarlyStoppingOperation.Status.ACTIVE
-            or datetime.datetime.utcnow()
-            - output_operation.completion_time.ToDatetime()
-            < self._early_stop_recycle_period
+            or (
+                output_operation.status
+                != vizier_oss_pb2.EarlyStoppingOperation.Status.FAILED
+                and datetime.datetime.utcnow()
+                - output_operation.completion_time.ToDatetime()
+                < self._early_stop_recycle_period
+            )
         ):
           # Operation is already active or very recent. Just return it.
           return vizier_service_pb2.CheckTrialEarlyStoppingStateResponse(
@@ -757,26 +761,42 @@ class VizierServicer(vizier_service_pb2_grpc.VizierServiceServicer):
             f'Misconfigured automated_stopping_spec: {study.study_spec}'
         )
 
-      # Send request to Pythia.
-      temp_pythia_service = self._select_pythia_service(
-          study_config.pythia_endpoint
-      )
-      early_stopping_decisions_proto = temp_pythia_service.EarlyStop(
-          early_stop_request_proto
-      )
-      early_stopping_decisions = svz.EarlyStopConverter.from_decisions_proto(
-          early_stopping_decisions_proto
-      )
-      # Update metadata from result.
-      self.datastore.update_metadata(
-          study_name,
-          svz.metadata_util.make_key_value_list(
-              early_stopping_decisions.metadata.on_study
-          ),
-          svz.metadata_util.trial_metadata_to_update_list(
-              early_stopping_decisions.metadata.on_trials
-          ),
-      )
+      try:
+        # Send request to Pythia.
+        temp_pythia_service = self._select_pythia_service(
+            study_config.pythia_endpoint
+        )
+        early_stopping_decisions_proto = temp_pythia_service.EarlyStop(
+            early_stop_request_proto
+        )
+        early_stopping_decisions = svz.EarlyStopConverter.from_decisions_proto(
+            early_stopping_decisions_proto
+        )
+        # Update metadata from result.
+        self.datastore.update_metadata(
+            study_name,
+            svz.metadata_util.make_key_value_list(
+                early_stopping_decisions.metadata.on_study
+            ),
+            svz.metadata_util.trial_metadata_to_update_list(
+                early_stopping_decisions.metadata.on_trials
+            ),
+        )
+      # Pythia can raise any exception. Don't leave the operation ACTIVE.
+      except Exception as e:  # pylint: disable=broad-except
+        logging.exception(
+            'Failed to get early stopping decisions for request: %s', request
+        )
+        output_operation.status = (
+            vizier_oss_pb2.EarlyStoppingOperation.Status.FAILED
+        )
+        output_operation.failure_message = str(e)
+        output_operation.completion_time.CopyFrom(_get_current_time())
+        self.datastore.update_early_stopping_operation(output_operation)
+        grpc_util.handle_exception(e, context)
+        return vizier_service_pb2.CheckTrialEarlyStoppingStateResponse(
+            should_stop=False
+        )
 
       # Pythia does not guarantee that the output_operation's id
       # will be in the decisions.
